@@ -113,6 +113,12 @@ func cmdFunc(args []string) int {
 		for _, j := range jobs {
 			o := j.o
 			mark := "ok  "
+			if o.Status == "error" {
+				mark = "SOLVER-ERROR"
+				rc = 2
+				fmt.Printf("%-10s %s %s\n", mark, o.Name, oneLine(o.Output))
+				continue
+			}
 			if o.Canary {
 				if o.Status == "discharged" {
 					mark = "VACUOUS"
@@ -238,6 +244,10 @@ func cmdCheck(args []string) int {
 	for _, j := range jobs {
 		o := j.o
 		solverTime += o.Time
+		if o.Status == "error" {
+			engineErrs = append(engineErrs, "solver error on "+o.Name+": "+oneLine(o.Output))
+			continue
+		}
 		if o.Canary {
 			nCan++
 			if o.Status == "discharged" {
